@@ -384,6 +384,10 @@ pub fn c13(cx: &Ctx, rep: &mut Report) {
                 }
             }
         }
+        // honestly generated keys for the model-selected seeds whose t = A s1 + s2 wraps around q
+        for (n, xi) in crate::checks_a::rare_keygen_seeds(p, cx.seed, crate::checks_a::rare_cap(cx.tier)) {
+            sks.push((format!("generated:model-selected:{n}"), refmodel::keygen_internal(p, &xi).sk));
+        }
         sks.push(("all-00".into(), vec![0u8; p.sk_len]));
         sks.push(("all-ff".into(), vec![0xFFu8; p.sk_len]));
         sks.push(("shake".into(), refmodel::shake256(&[b"c13-sk"], p.sk_len)));
@@ -456,6 +460,19 @@ pub fn c13(cx: &Ctx, rep: &mut Report) {
                 }
             }
         }
+        // slot-maximisation family: one inverse-transform input coefficient inside verify() pushed to (l+1)*q/2 and beyond
+        let mut peak = 0i64;
+        for (case, total) in crate::e7::slot_max_cases(p, cx.tier == Tier::Thorough) {
+            rep.count("pk:verify(slot-max family)", 1);
+            rep.nontrivial_case(fnv(&case.sig));
+            peak = peak.max(total.abs());
+            if let Ok(Ok(pk)) = (api.pk_from_bytes)(&case.pk) {
+                if let Err(pn) = pk.verify(case.mode, &case.msg, &case.sig, &case.ctx) {
+                    report_panic(rep, p.id, &format!("verify on {} (inverse-transform input coefficient {:.3} q)", case.class, total as f64 / refmodel::Q as f64), &pn, case.replay(p.id, false));
+                }
+            }
+        }
+        rep.extra.insert(format!("largest_verify_inv_ntt_input_over_q_mldsa{}", p.id), json!(peak as f64 / refmodel::Q as f64));
         // signing with long messages / every context length class through an honest key
         if let Ok(Ok(sk)) = (api.sk_from_bytes)(&base.sk) {
             for (m, c, mode) in [(vec![0u8; 1 << 20], vec![], Mode::Pure), (vec![0u8; 1 << 20], alpha::ctx(255), Mode::Sha256), (vec![], vec![0u8; 65_536], Mode::Pure), (vec![], alpha::ctx(256), Mode::Shake128)] {
